@@ -175,6 +175,20 @@ impl<T: crate::EventSource> TransientSourceState<T> {
 //@ rw R8 1 <<F: FnMut(Self::Event>> => <<CbF: FnMut(Self::Event>>
 //@ rw R1 * <<replace_state(TransientSourceState::Disable)>> => <<replace_state(|x: T| -> (r: TransientSourceState<T>) ensures r == TransientSourceState::Disable(x) { TransientSourceState::Disable(x) })>>
 //@ rw R1 * <<replace_state(TransientSourceState::Remove)>> => <<replace_state(|x: T| -> (r: TransientSourceState<T>) ensures r == TransientSourceState::Remove(x) { TransientSourceState::Remove(x) })>>
+//@ spec
+        ensures
+            // C18: what happens to a kept child is dictated by what ITS process_events returned (for an arbitrary child type
+            // `T::process_ens` is uninterpreted: the fact can only come from the real call): Continue / Reregister keep it and
+            // are passed on; Disable / Remove park it in the matching state and ask the parent for a re-registration; an error
+            // is propagated
+            old(self).st() matches TransientSourceState::Keep(c0) ==> exists|cn: T, cr: Result<crate::PostAction, T::Error>|
+                #[trigger] T::process_ens(&c0, &cn, readiness, token, cr) && (match cr {
+                    Ok(crate::PostAction::Continue) => final(self).st() == TransientSourceState::Keep(cn) && r matches Ok(crate::PostAction::Continue),
+                    Ok(crate::PostAction::Reregister) => final(self).st() == TransientSourceState::Keep(cn) && r matches Ok(crate::PostAction::Reregister),
+                    Ok(crate::PostAction::Disable) => final(self).st() == TransientSourceState::Disable(cn) && r matches Ok(crate::PostAction::Reregister),
+                    Ok(crate::PostAction::Remove) => final(self).st() == TransientSourceState::Remove(cn) && r matches Ok(crate::PostAction::Reregister),
+                    Err(_) => r is Err,
+                }),
 //@ entry
         proof { broadcast use axiom_droppable; }
 //@ enditem
